@@ -985,5 +985,33 @@ fn main() {
          Option<f32>, Option<f64>, Option<i32>, Option<i64>, Option<u8>, Option<u64>, Option<usize>, Option<isize>,
          Option<bool>, Option<String>, Option<DtNs>, Option<TimeDelta>, Option<Time>]);
 
+    // 2b. the unit-changing casts DateTime<A> -> DateTime<B> share one model type code (DT) in the lattice above and are
+    // characterised value by value in C16; here only what C15 says about them: a null stays a null, a non-null stays a
+    // non-null (when representable), in both directions, also through Option — against the unit-conversion model
+    {
+        use tevec::prelude::unit;
+        let vals: [i64; 9] = [i64::MIN, i64::MIN + 1, -1_000_001, -1, 0, 1, 999_999, 1_700_000_000_123, 9_000_000_000_000_000];
+        for x in vals {
+            let term = |u: &str, t: &str| format!(
+                "(c_bool (Tevec.Model.Time.is_nat {x}) ++ match Tevec.Model.Time.into_unit Tevec.Model.Time.{u} Tevec.Model.Time.{t} {x} with Tevec.Base.Prelude.Ok y => c_bool (Tevec.Model.Time.is_nat y) ++ c_int y | Tevec.Base.Prelude.Panic k => c_panic k end)",
+                x = coq_z(x as i128), u = u, t = t);
+            let cells_of = |src_null: bool, r: Result<(bool, i64), u8>| -> Vec<Cell> {
+                let mut c = vec![Cell::Int(src_null as i128)];
+                match r { Ok((n, v)) => { c.push(Cell::Int(n as i128)); c.push(Cell::Int(v as i128)) } Err(k) => c.push(Cell::Panic(k)) }
+                c
+            };
+            cx.em.case("exact", "fn=unit_cast pair=ns>ms", &format!("DateTime<Nanosecond>({}).cast::<DateTime<Millisecond>>(): nullness", x),
+                || term("Nano", "Milli"),
+                || { let d = DateTime::<unit::Nanosecond>::new(x); cells_of(d.is_none(), guarded(AssertUnwindSafe(|| { let r: DtMs = d.cast(); (r.is_none(), r.into_i64()) }))) });
+            cx.em.case("exact", "fn=unit_cast pair=ms>ns", &format!("DateTime<Millisecond>({}).cast::<DateTime<Nanosecond>>(): nullness", x),
+                || term("Milli", "Nano"),
+                || { let d = DateTime::<unit::Millisecond>::new(x); cells_of(d.is_none(), guarded(AssertUnwindSafe(|| { let r: DtNs = d.cast(); (r.is_none(), r.into_i64()) }))) });
+            cx.em.case("exact", "fn=unit_cast pair=us>s", &format!("DateTime<Microsecond>({}).cast::<DateTime<Second>>(): nullness", x),
+                || term("Micro", "Sec"),
+                || { let d = DateTime::<unit::Microsecond>::new(x); cells_of(d.is_none(), guarded(AssertUnwindSafe(|| { let r: DateTime<unit::Second> = d.cast(); (r.is_none(), r.into_i64()) }))) });
+        }
+    }
+
+
     cx.em.finish();
 }
